@@ -1174,6 +1174,9 @@ def find_workflow_witness(ctx):
 def eval_store_load(ctx, ckey, attr, disk):
     """Run the store's initialiser (attrs default method or __attrs_post_init__/__init__) with the given file content (None = no file);
     returns the table the instance starts with, or an error string."""
+    if ckey.endswith("TrackingBackend"):
+        res = eval_backend_init(ctx, disk)
+        return res if isinstance(res, str) else res["tracked"]
     ci, obj = store_object(ctx, ckey, attr, {})
     events = []
     hooks = file_hooks(events, disk if disk is not None else {})
@@ -2161,3 +2164,61 @@ def cancel_task_witness(ctx):
         if states[8].member != "RUNNING":
             diffs.append(f"cancelling task 7 changes the state of task 8 to {states[8].member}")
     return n, diffs, None
+
+
+def eval_backend_init(ctx, disk):
+    """TrackingBackend's initialisers (attrs default methods in field order, then __attrs_post_init__) with the state file and ops hooked.
+
+    disk: the dict saved by the previous invocation or None (no file). Returns dict(tracked, states, queried, opened) or an error string."""
+    idx = ctx.index
+    ci = idx.cls("gwf.backends.base:TrackingBackend")
+    queried, opened = [], []
+    answer = {}
+
+    def h_open(path, mode="r", *a, **k):
+        mode = k.get("mode", mode)
+        opened.append((str(path), mode))
+        if disk is None:
+            raise Raised("FileNotFoundError", str(path))
+        return Obj("file", path=str(path), mode=mode)
+
+    def h_states(recv, ids):
+        ids = list(ids)
+        queried.append(ids)
+        answer.update({i: EnumVal("gwf.backends.base.BackendStatus", "RUNNING") for i in ids})
+        return dict(answer)
+
+    hooks = {"builtins.open": h_open, "json.load": lambda f, *a, **k: dict(disk or {}), "attr:get_job_states": h_states}
+    obj = Obj("backend", working_dir=PROJ, name="NAME", ops=Obj("ops", target_defaults={}), **{"__class__": ci})
+    interp = PureInterp(ctx, hooks=hooks)
+    try:
+        for fname, _ann, _value in ci.fields:
+            for m in ci.methods.values():
+                if any((d or "").endswith(f"{fname}.default") for d in m.decorator_names()):
+                    setattr(obj, fname, interp.call(m, (), {}, self_obj=obj))
+        post = idx.method(ci, "__attrs_post_init__")
+        if post is not None:
+            interp.call(post, (), {}, self_obj=obj)
+    except (Raised, Unsupported) as exc:
+        return f"<{type(exc).__name__}: {exc}>"
+    a = obj.__dict__["_attrs"]
+    return {"tracked": dict(a.get("_tracked_jobs") or {}) if isinstance(a.get("_tracked_jobs"), dict) else a.get("_tracked_jobs"),
+            "states": a.get("_job_states"), "queried": queried, "opened": opened}
+
+
+def eval_submit_ids(ctx):
+    """The id each cluster backend hands back for what the scheduler prints on submission."""
+    answers = {"sbatch": "4242\n", "qsub": "4242\n", "bsub": "Job <4242> is submitted to default queue <normal>.\n"}
+    out = {}
+    for mod, cname, exe in (("gwf.backends.slurm", "SlurmOps", "sbatch"), ("gwf.backends.sge", "SGEOps", "qsub"), ("gwf.backends.lsf", "LSFOps", "bsub")):
+        ci = ctx.index.cls(f"{mod}:{cname}")
+        m = ctx.index.method(ci, "submit_target")
+        hooks = {"gwf.backends.utils.call": lambda e, *a, **k: answers.get(e, ""), "attr:compile_script": lambda recv, t: "SCRIPT",
+                 "builtins.open": lambda p, mode="r", *a, **k: Obj("file", path=str(p), mode=mode), "attr:write": lambda recv, *a: None}
+        interp = PureInterp(ctx, hooks=hooks)
+        obj = Obj("ops", working_dir=PROJ, log_mode="full", accounting_enabled=True, target_defaults={}, **{"__class__": ci})
+        try:
+            out[cname] = (interp.call(m, (Obj("target", name="T", options={}, spec="x", working_dir="/w"), []), {}, self_obj=obj), m)
+        except (Raised, Unsupported) as exc:
+            out[cname] = (f"<{type(exc).__name__}: {exc}>", m)
+    return out
